@@ -43,7 +43,7 @@ type mutant struct {
 	Secs   float64  `json:"secs"`
 }
 
-var mutNoise = regexp.MustCompile(`(?i)(logger|liblog|\.Logger\(|\.Debug\(|\.Info\(|\.Warn\(|\.Error\(|Errorf|\.Wrap|sdkerrors|\.Format\(|\.JoinErrorf|EmitTypedEvent|EmitEvents?\(|NewEvent|NewAttribute|telemetry|\.Publish\(|WithFields|WithError|WithValidator|WithComponent|Printf|Println|errors\.New)`)
+var mutNoise = regexp.MustCompile(`(?i)(logger|liblog|\.Logger\(|\.Debug\(|\.Info\(|\.Warn\(|\.Error\(|Errorf|\.Wrap|sdkerrors|\.Format\(|\.JoinErrorf|EmitTypedEvent|EmitEvents?\(|NewEvent|NewAttribute|telemetry|\.Publish\(|EmitEvent|WithFields|WithError|WithValidator|WithComponent|Printf|Println|errors\.New)`)
 
 func CmdMutSweep(args []string) int {
 	fs := flag.NewFlagSet("mutsweep", flag.ExitOnError)
@@ -328,6 +328,7 @@ func genMutants(fset *token.FileSet, pkg *packages.Package, src []byte, fname, f
 		}
 		return true
 	})
+	skipLit := map[*ast.BasicLit]bool{}
 	var walk func(n ast.Node) bool
 	walk = func(n ast.Node) bool {
 		switch n := n.(type) {
@@ -375,6 +376,9 @@ func genMutants(fset *token.FileSet, pkg *packages.Package, src []byte, fname, f
 			}
 		case *ast.ReturnStmt:
 			for _, r := range n.Results {
+				if bl, ok := r.(*ast.BasicLit); ok {
+					skipLit[bl] = true // `return 0, err`: the value beside an error is noise
+				}
 				if id, ok := r.(*ast.Ident); ok && id.Name != "nil" && isErr(info.TypeOf(r)) {
 					add("RETNIL", r.Pos(), r.End(), "nil")
 				}
@@ -406,6 +410,9 @@ func genMutants(fset *token.FileSet, pkg *packages.Package, src []byte, fname, f
 				}
 			}
 		case *ast.BasicLit:
+			if skipLit[n] {
+				return true
+			}
 			if n.Kind == token.INT && len(n.Value) < 9 && !strings.HasPrefix(n.Value, "0x") {
 				add("CONST", n.Pos(), n.End(), "("+n.Value+" + 1)")
 			}
